@@ -39,6 +39,16 @@ def _safe(s):
     return s2
 
 
+def _kf_matches(f, name, detail):
+    """a listed finding is identified by the obligation / case name and, where the entry says so, by what was observed
+    ('detail' regex): another failure of the same obligation is a different violation and is reported"""
+    if not re.search(f['match'], name):
+        return False
+    if f.get('detail') is not None and not re.search(f['detail'], str(detail or '')):
+        return False
+    return True
+
+
 def load_known():
     if not os.path.exists(KNOWN_FILE):
         return {'findings': [], 'fixed': []}
@@ -125,7 +135,7 @@ class Report:
             k = ob_key(o['name'])
             hit = None
             for f in kf:
-                if re.search(f['match'], o['name']):
+                if _kf_matches(f, o['name'], o.get('detail')):
                     hit = f
                     break
             if hit:
@@ -140,7 +150,7 @@ class Report:
             if not b['ok']:
                 hit = None
                 for f in kf:
-                    if re.search(f['match'], b['name']):
+                    if _kf_matches(f, b['name'], b.get('detail')):
                         hit = f
                         break
                 if hit:
